@@ -87,6 +87,7 @@ Encoded(i) == [ y |-> i.y, doy |-> i.doy, ms |-> i.ms, us |-> i.us,
                 daynumber |-> DayNumber(i.y, i.doy),
                 hh |-> i.ms \div 3600000, mm |-> (i.ms \div 60000) % 60, ss |-> (i.ms \div 1000) % 60, mmm |-> i.ms % 1000,
                 later2s |-> Later(i, 2000),      \* a second line of the same request, 2 s later (may be the next day / year)
+                later14m |-> Later(i, 840000),   \* the scene centre of a product whose orbit data start 14 min earlier (may be the next year)
                 date_text |-> [st \in DateStyles |-> Join(DateText(st, i.y, MonthOf(i.y, i.doy), DayOf(i.y, i.doy)))] ]
 Step == pc = "encode" /\ pc' = "done" /\ UNCHANGED inst
 Next == Step \/ (pc = "done" /\ UNCHANGED vars)
